@@ -593,6 +593,10 @@ class C12(Prop):
                 via_ctor = R.random() < 0.5
                 ents, later = [], []
                 for nm_, s_ in templates:
+                    if i > 0 and nm_ in names and R.random() < 0.15:
+                        # instances need not agree on what a key means: this one holds another template under it
+                        k_ = names.index(nm_)
+                        s_ = pr(self._tmpl(R, names[:k_], braces))
                     if via_ctor and R.random() < 0.8:
                         ents.append((nm_, "shared" if nm_ in ("al", alias_src) else mname(nm_), s_))
                     else:
@@ -611,11 +615,16 @@ class C12(Prop):
                     ops.append(("render", i, R.choice(tops)))
                 else:
                     ops.append(("translate", i, R.choice(names + ["nope"])))
-                if names and R.random() < 0.15:      # re-register an included template (maybe after a render that raised)
+                if names and R.random() < 0.2:       # re-register an included template (maybe after a render that raised)
                     k = R.randrange(len(names))
-                    text = "ok" if R.random() < 0.4 else pr(self._tmpl(R, names[:k], braces))
+                    text = "ok" if R.random() < 0.3 else pr(self._tmpl(R, names[:k], braces))
+                    if R.random() < 0.5:               # ... after the key itself has been rendered by name
+                        ops.append(("translate", i, names[k]))
                     ops.append(regop(i, names[k], text))
-                    ops.append(("render", i, R.choice(tops)))
+                    # ... and look at it again: by name, or through whatever includes it
+                    ops.append(("translate", i, names[k]) if R.random() < 0.5 else ("render", i, R.choice(tops)))
+                    if R.random() < 0.3:
+                        ops.append(("translate", i, R.choice(names)))
                 if R.random() < 0.06:                  # public attributes re-assigned on a live instance, then a render
                     if R.random() < 0.6:
                         ops.append(("strict", i, R.random() < 0.5))
@@ -735,6 +744,59 @@ class C12(Prop):
                                        + [("tmpl", 0, "hdr2", ents[0][2]), ("reg", 0, "", "", "x")] + looks
                                        + [("put", 0, "header", "zz", "<H>"), ("translate", 0, "page"), ("tmpl", 0, "page", "P{{>header}}"),
                                           ("translate", 0, "page")], "mixed ways, re-registration, nameless register"))
+        # re-registration probes: a key that has ALREADY been rendered (by name, through an include, from another
+        # template) is registered again - every way of registering x every way of re-registering, the mRNA's own name
+        # equal to the key / different / equal to ANOTHER registered key / absent - with a template whose plain slots
+        # differ from the old one's; then it is rendered again by name, through includes, strictly and not.  What is
+        # rendered, warned about and rejected must be the template the caller registered LAST under that key.
+        rereg = []
+        S1, S2, S3 = "1:{{a}}{{q}}", "2:{{b}}{{zz}}", "3:{{c}}{{?a}}"
+        C1, C2 = {"a": "A", "q": "Q", "b": "B"}, {"b": "B", "zz": "Z", "c": 0}
+        K = "alias"
+
+        def way(w, seq, first=False):
+            """one registration of `seq` under key K; w: tmpl | regO (name= override, own name differs) | regN (own name)
+            | regX (name= override, own name = another registered key) | regE (name= override, nameless mRNA) | put |
+            putX (direct assignment, own name = another registered key)"""
+            if w == "tmpl": return ("tmpl", 0, K, seq)
+            if w == "regO": return ("reg", 0, K, K + ("_v1" if first else "_v2"), seq)
+            if w == "regN": return ("reg", 0, "", K, seq)
+            if w == "regX": return ("reg", 0, K, "page", seq)
+            if w == "regE": return ("reg", 0, K, "", seq)
+            if w == "putX": return ("put", 0, K, "page", seq)
+            return ("put", 0, K, K + "_own", seq)
+        looksK = [("translate", 0, K), ("translate", 0, "page"), ("render", 0, "{{>" + K + "}}!{{b}}")]
+        ways1 = ["ctor", "tmpl", "regO", "regN", "regX", "put"]
+        ways2 = ["tmpl", "regO", "regN", "regX", "regE", "put", "putX"] if tier != "quick" else ["tmpl", "regO", "regN", "regX", "put"]
+        for w1 in ways1:
+            for w2 in ways2:
+                for strict in (False, True):
+                    ops = [("new", 0, strict, "none", [(K, K + "_v0", S1)] if w1 == "ctor" else [])]
+                    if w1 != "ctor":
+                        ops.append(way(w1, S1, True))
+                    ops += [("tmpl", 0, "page", "<{{>" + K + "}}>{{b}}"), ("ctx", C1)] + looksK
+                    ops += [way(w2, S2)] + looksK + [("ctx", C2)] + looksK
+                    ops += [way("put" if w1 == "ctor" else w1, S1, True)] + looksK[:2]
+                    # an UNREGISTERED mRNA object that merely carries the key as its name, between two renders by name
+                    ops += [("trobj", 0, K, S3), ("translate", 0, K), ("trobj", 0, "page", S3), ("translate", 0, "page")]
+                    ops += [way(w2, S3), ("translate", 0, K), ("strict", 0, not strict), ("translate", 0, K), ("translate", 0, "page")]
+                    rereg.append(self.hcase({}, ops, f"re-registration after use: {w1} then {w2}"))
+        # the same key on several live instances, holding different templates, rendered alternately
+        for strict in (False, True):
+            for wa, wb in (("tmpl", "tmpl"), ("regO", "put"), ("ctor", "regN"), ("put", "ctor")):
+                ops = []
+                for i, (w, seq) in enumerate(((wa, S1), (wb, S2))):
+                    ops.append(("new", i, strict, "none", [(K, K + "_v0", seq)] if w == "ctor" else []))
+                    if w != "ctor":
+                        o = way(w, seq, True)
+                        ops.append((o[0], i) + o[2:])
+                    ops.append(("tmpl", i, "page", "<{{>" + K + "}}>{{b}}"))
+                for cx in (C1, C2):
+                    ops.append(("ctx", cx))
+                    for i in (0, 1, 0):
+                        ops += [("translate", i, K), ("translate", i, "page")]
+                ops += [("tmpl", 1, K, S3), ("translate", 0, K), ("translate", 1, K), ("translate", 0, "page"), ("translate", 1, "page")]
+                rereg.append(self.hcase({}, ops, "one key, two live instances, different templates"))
         # name probes: the same template shape over every special variable name, every entry point, strict or not,
         # truthy / falsy / list / missing bindings - the rendering must not depend on what a variable is called
         nameprobes = []
@@ -776,6 +838,8 @@ class C12(Prop):
                  "cases": nameprobes},
                 {"name": "pass-order probes", "cases": probes},
                 {"name": "registration probes (constructor mapping, register_template, create_template, direct assignment)", "cases": regs},
+                {"name": "re-registration probes (a key registered again after it was rendered: every way x every way, "
+                         "own name equal / different / another key / absent; one key on two live instances)", "cases": rereg},
                 {"name": "history probes (several instances, renders after errors, re-registration)", "cases": hist}]
 
     # --- implementation -----------------------------------------------------------------------------------
